@@ -118,3 +118,118 @@ contract(OF, 'OscScore._get_logical_time', props=('C07', 'C10'),
          returns='real',
          ensures=[('same-rule-as-the-nrt-timetag', score_time)],
          modifies=[], fields=FIELDS, class_modules=dict(CM, OscScore=OF))
+
+
+# ---- OscScore.add / finish (C07: "scores are ordered", C10: NRT output) ---------------------------
+# add(): refused after finish() without any effect; otherwise the bundle is encoded at the current
+# logical time and queued ONCE, with priority = the processed bundle's own time, as an entry that
+# carries the processed bundle and the 4-byte size prefix + datagram.  The order of the score is
+# then the queue's (TaskQueue: proved stable priority order, C09).
+# finish(): idempotent; one dummy command at the tail time (made absolute when called from the main
+# thread); then every queue entry, in queue order, contributes its bundle to the list and its bytes
+# to the raw score; finished is set.
+import z3 as _z3
+from vf.pyvc.spec import Loop as _Loop
+
+
+def sc_getattr(eng, obj, name, st, node):
+    if obj.k == 'obj' and obj.oid == 'self._scoreq' and name == 'add':
+        def qadd(eng, args, kwargs, st, node):
+            st.trace.append(('queue-add', tuple(args)))
+            return [(st, NONE)]
+        return [(st, V('func', py=('spec', qadd)))]
+    if obj.k == 'class' and name == '_Entry':
+        return [(st, V('class', py='_Entry'))]
+    if obj.k == 'ref' and obj.oid == 'main' and name == '_osc_interface':
+        return [(st, V('obj', oid='iface'))]
+    if obj.k == 'obj' and obj.oid == 'iface' and name == '_build_bundle':
+        def bb(eng, args, kwargs, st, node):
+            st.trace.append(('build', tuple(args)))
+            return [(st, V('obj', oid='built'))]
+        return [(st, V('func', py=('spec', bb)))]
+    if obj.k == 'obj' and obj.oid == 'built':
+        if name == 'size':
+            return [(st, V('obj', oid='built.size'))]
+        if name == 'dgram':
+            return [(st, V('obj', oid='built.dgram'))]
+    if obj.k == 'obj' and obj.oid == 'built.size' and name == 'to_bytes':
+        def tb(eng, args, kwargs, st, node):
+            ok = len(args) == 2 and args[0].k == 'int' and _z3.simplify(args[0].z).as_long() == 4 \
+                and args[1].k == 'str' and args[1].py == 'big'
+            return [(st, V('obj', oid='size-prefix' if ok else 'bad-prefix'))]
+        return [(st, V('func', py=('spec', tb)))]
+    if obj.k == 'list' and name == 'append':
+        def app(eng, args, kwargs, st, node):
+            st.trace.append(('list-append', args[0]))
+            return [(st, NONE)]
+        return [(st, V('func', py=('spec', app)))]
+    if obj.k == 'obj' and obj.oid == 'self._raw_score' and name == 'extend':
+        def ext(eng, args, kwargs, st, node):
+            st.trace.append(('raw-extend', args[0]))
+            return [(st, NONE)]
+        return [(st, V('func', py=('spec', ext)))]
+    if obj.k == 'obj' and obj.oid == 'self._lst_score' and name == 'append':
+        def app2(eng, args, kwargs, st, node):
+            st.trace.append(('list-append', args[0]))
+            return [(st, NONE)]
+        return [(st, V('func', py=('spec', app2)))]
+    return None
+
+
+def sc_binop(eng, op, a, b, st, node):
+    import ast as _ast
+    if isinstance(op, _ast.Add) and a.k == 'obj' and b.k == 'obj' and a.oid in ('size-prefix', 'bad-prefix'):
+        return [(st, V('obj', oid='prefixed', extra={'parts': (a.oid, b.oid)}))]
+    return None
+
+
+def sc_construct(eng, f, args, kwargs, st, node):
+    if f.k == 'class' and f.py in ('_Entry', 'OscScore._Entry'):
+        return [(st, V('obj', oid='entry!%d' % next(eng.counter), extra={'args': tuple(args)}))]
+    return None
+
+
+def process_time(eng, selfv, args, kwargs, st, node):
+    t = V('any', _z3.Const('processed.time', VV_any()))
+    r = vlist([t, V('obj', oid='processed.rest')])
+    st.trace.append(('process', tuple(args), r))
+    return [(st, r)]
+
+
+def VV_any():
+    from vf.pyvc import values as _VV
+    return _VV.Any
+
+
+def score_add_post(c):
+    t = [e for e in c.trace if e[0] in ('build', 'process', 'queue-add')]
+    if [e[0] for e in t] != ['build', 'process', 'queue-add']:
+        return _z3.BoolVal(False)
+    build, proc, qadd = t
+    now = _z3.Real('main.current_tt._seconds')
+    b = c._params['bndl']
+    ok = (len(build[1]) == 2 and build[1][0].k == 'real' and build[1][1] is b
+          and len(proc[1]) == 2 and proc[1][0].k == 'real' and proc[1][1] is b
+          and len(qadd[1]) == 2 and qadd[1][0] is proc[2].items[0]             # priority = the processed bundle's time
+          and qadd[1][1].k == 'obj' and bool(qadd[1][1].extra) and len(qadd[1][1].extra['args']) == 2
+          and qadd[1][1].extra['args'][0] is proc[2]                           # the entry carries the processed bundle
+          and qadd[1][1].extra['args'][1].k == 'obj' and qadd[1][1].extra['args'][1].oid == 'prefixed'
+          and qadd[1][1].extra['args'][1].extra['parts'] == ('size-prefix', 'built.dgram'))   # 4-byte size + datagram
+    if not ok:
+        return _z3.BoolVal(False)
+    return _z3.And(build[1][0].z == now, proc[1][0].z == now)                 # both at the current logical time
+
+
+SCORE_FIELDS = {'OscScore': {'_finished': 'bool', '_scoreq': 'obj', '_lst_score': 'obj', '_raw_score': 'obj'},
+                'Main': dict(MAIN_FIELDS, main_tt='aref:TimeThread', current_tt='aref:TimeThread'),
+                'TimeThread': {'_seconds': 'real'}}
+
+contract(OF, 'OscScore.add', props=('C07', 'C10'), params={'self': 'self', 'bndl': 'obj'},
+         raises={'Exception': lambda c: c.pre.self._finished},
+         ensures=[('encoded-and-queued-once-at-its-own-time-with-size-prefix', score_add_post)],
+         on_raise=[('refused-without-effect', lambda c: _z3.BoolVal(
+             not [e for e in c.trace if e[0] in ('build', 'process', 'queue-add')]))],
+         modifies=[], fields=SCORE_FIELDS,
+         hooks={'getattr': sc_getattr, 'binop': sc_binop, 'construct': sc_construct},
+         policies={'OscScore._process_bndl_time': process_time},
+         class_modules={'OscScore': OF, 'TimeThread': 'sc3/base/stream.py'}, native=False)
